@@ -41,11 +41,11 @@ pub fn plan_parts(prop: &str, tier: Tier) -> (u64, u64, u64) {
     match prop {
         "C02" => (scale(24_000, 250_000), scale(600, 6_000), scale(0, 12)),
         "C03" => (scale(24_000, 250_000), scale(600, 6_000), scale(0, 8)),
-        "C08" => (scale(40_000, 2_000_000), 0, 0),
-        "C09" => (scale(3_000, 300_000), 0, 0),
-        "C11" => (scale(20_000, 2_000_000), 0, 0),
-        "C12" => (scale(60_000, 8_000_000), 0, 0),
-        "C13" => (scale(50_000, 8_000_000), 0, 0),
+        "C08" => (scale(60_000, 2_000_000), 0, 0),
+        "C09" => (scale(6_000, 300_000), 0, 0),
+        "C11" => (scale(60_000, 2_000_000), 0, 0),
+        "C12" => (scale(400_000, 30_000_000), 0, 0),
+        "C13" => (scale(400_000, 30_000_000), 0, 0),
         "C18" => (scale(400, 4_000), 0, 0),
         _ => (0, 0, 0),
     }
